@@ -25,7 +25,7 @@ func runC08(c *Ctx) {
 	L.Floor("wg-done", 2, "worker goroutines + Wait")
 	L.Floor("chan-close", 1, "distchan")
 	c.checkLockset(r, "lockset")
-	L.Floor("lockset", 3, "err, max, uncompute (+ range bounds)")
+	L.Floor("lockset", 1, "err, max, uncompute (+ range bounds) (floor = half of the instances on the pinned tree: a clean-up may merge instances, a rule that sees nothing must still fail)")
 
 	// (d) RNG in these goroutines
 	L.Rule("rng-in-goroutine", "no top-level math/rand function is reachable through the call graph from the goroutines of DistMatrix")
@@ -85,7 +85,7 @@ func runC08(c *Ctx) {
 	c.checkWorkersDrain(r, "workers-drain")
 	L.Floor("workers-drain", 1, "worker loop")
 	c.checkWeightedAccumulation("weighted-accumulation")
-	L.Floor("weighted-accumulation", 12, "accumulations in the five counters and probaNt")
+	L.Floor("weighted-accumulation", 6, "accumulations in the five counters and probaNt (floor = half of the instances on the pinned tree: a clean-up may merge instances, a rule that sees nothing must still fail)")
 
 	c.checkErrorStoredWhereProduced(r)
 	c.checkWorkerAccumulations(r)
@@ -163,7 +163,7 @@ func (c *Ctx) checkErrorStoredWhereProduced(r *fnRef) {
 			L.Check(stored, "error-propagated", r.label, name, c.P.Pos(call.Pos()), "error component is stored to the error result", "the error of the model call never reaches the function's error result: the failure is silently lost")
 		})
 	}
-	L.Floor("error-propagated", 4, "InitModel, Sequence x3+, Distance")
+	L.Floor("error-propagated", 2, "InitModel, Sequence x3+, Distance (floor = half of the instances on the pinned tree: a clean-up may merge instances, a rule that sees nothing must still fail)")
 	_ = n
 }
 
